@@ -91,6 +91,23 @@ def build(tier, seed):
                 and val(T.Text.cast(b)).upper() == ('TRUE' if b else 'FALSE') and val(F['LEN'](n)) == len(str(n)) and val(F['CONCAT'](n, b)) == str(n) + val(T.Text.cast(b)))
     add('cast[text parameters]', h_text_cast, lambda n, b: -999 <= n <= 999, [(12, True), (-3, False)], 'text parameters accept numbers and booleans by their text form (n in -999..999)', 10)
 
+    DEC_TEXTS = [('.5', 0.5), ('-.5', -0.5), ('+.5', 0.5), ('5.', 5.0), ('-5.', -5.0), ('0.5', 0.5), ('.5e1', 5.0), ('1e-1', 0.1), ('1.5E1', 15.0), (' 1.5', 1.5), ('1.5 ', 1.5),
+                 ('00.50', 0.5), ('-0.0', 0.0), ('1_0', None), ('nan', None), ('inf', None), ('-Infinity', None), ('1e400', None), ('\uff11\uff12', None), ('1..5', None), ('.', None), ('e1', None), ('--1', None)]
+
+    def h_dec_text(i: int, k: int, dp: bool) -> bool:
+        DP[0] = False
+        i = concretize(i, 0, len(DEC_TEXTS) - 1)
+        t, v = DEC_TEXTS[i]
+        r1, r2, r3, r4 = F['ABS'](t), F['ABS'](T.Text(t)), OPS.OP_MUL(T.Text(t), T.Number(k)), OPS.OP_ADD(T.Number(k), T.Text(t))
+        if v is None:
+            return is_err(r1, XE.ValueExcelError) and is_err(r2, XE.ValueExcelError) and is_err(r3, XE.ValueExcelError) and is_err(r4, XE.ValueExcelError)
+        return num_is(r1, abs(v)) and num_is(r2, abs(v)) and num_is(r3, v * k) and num_is(r4, k + v)
+    obs.append(Ob('c08.cast[decimal text]', h_dec_text, pre=lambda i, k, dp: 0 <= i < len(DEC_TEXTS) and -1000 <= k <= 1000, witness=[(0, 4, False), (3, -2, False), (13, 1, False)], timeout=300, cost=20,
+                  family='c08.cast', ctx=dateutil_stub, stubs=['P4 dateutil.parser.parse: text is not a date'],
+                  bounds=f'numeric text without integer or fraction digits, exponents, surrounding blanks ({[t for t, v in DEC_TEXTS if v is not None]}) and near misses ({[t for t, v in DEC_TEXTS if v is None]}) (forked) '
+                         'as a numeric argument and as an operand of * and + with every int k in -1000..1000: the value of the text, resp. #VALUE!',
+                  show=lambda i, k, dp: f'text {DEC_TEXTS[i % len(DEC_TEXTS)][0]!r} with k={k}'))
+
     NATIVES = [1, True, 0, False, '1', 'True', 1.0]
 
     def h_history(i: int, j: int) -> bool:
